@@ -110,6 +110,19 @@ def correspond(ctx, schema, case, base, cfgs):
             p = L.first_diff(_sorted_members(la["norm"]), _sorted_members(ra["decoded"]))
             ctx.fail("corr:lossless-statement:real:" + L.diff_class(p or ""), "the Lean decoder applied to the REAL introspection result differs from norm s at %s" % p,
                      {"case": case, "path": p, "impl": _at(_sorted_members(ra["decoded"]), p), "model": _at(_sorted_members(la["norm"]), p)}, kind="correspondence")
+    # the part of `Spec.decodeAll` the description has no slot for (introspect_lossless_end_to_end): possibleTypes of interfaces, decoded
+    # from the model's answer and from the REAL answer, against `Spec.implementers` of the dumped schema (no depth hypothesis)
+    def _pairs(x):
+        return sorted([p[0], sorted(p[1])] for p in (x or []))
+    if "implementers" in la:
+        ctx.stat("interfaces-decoded:%d" % min(len(la["implementers"]), 3))
+        if la.get("possible") != la["implementers"]:
+            ctx.fail("corr:lossless-statement:model:interface-possible", "decodeAll (introspect s true) differs from implementers s",
+                     {"case": case, "model": la.get("possible"), "implementers": la["implementers"]}, kind="correspondence")
+        if _pairs(ra.get("possible")) != _pairs(la["implementers"]):
+            ctx.fail("corr:lossless-statement:real:interface-possible",
+                     "the possibleTypes of interfaces decoded from the REAL introspection result differ from implementers s",
+                     {"case": case, "impl": _pairs(ra.get("possible")), "model": _pairs(la["implementers"])}, kind="correspondence")
     names = sorted(schema.types)
     picks = [ctx.rng.choice(names) for _ in range(2)] + ["NoSuchType", "", ctx.rng.choice(["__Type", "__Schema", "__TypeKind", "Boolean"])]
     tq = [(n, b) for n in picks for b in (True, False)]
